@@ -24,10 +24,10 @@ ASSUMPTIONS = [
     "tie A: source_get_octet, sink_put_octet, source_adapt, sink_adapt, once_source_get_chunk, once_sink_put_chunk, source_get_chunk, sink_put_chunk and the "
     "two atmost variants are translated from clang's typed AST on every run (tools/gen/cloops.py -> Gen/EndpFns.lean: `continue`, calls through the driver "
     "callbacks as calls of the prelude's scripted drivers, a Source / Sink as kind + driver data, `return c ? f() : g()` with only the chosen call run); proved "
-    "over the translation: gen_sink_adapt, gen_source_adapt, gen_once_sink_put_chunk, gen_sink_put_chunk, gen_once_source_get_chunk and gen_source_get_chunk (both driver styles, refusal of empty and oversized chunks) - whenever the model's loop ends, the C loop run against the same driver script ends (with any "
+    "over the translation: gen_sink_adapt, gen_source_adapt, gen_once_sink_put_chunk, gen_sink_put_chunk, gen_once_source_get_chunk, gen_source_get_chunk (both driver styles, refusal of empty and oversized chunks), gen_source_get_octet, gen_sink_put_octet, gen_sts_cbc (the sink asked again while it takes nothing), gen_sts_drain_cbc and gen_sts_n_cbc - whenever the model's loop ends, the C loop run against the same driver script ends (with any "
     "fuel beyond the model's) in the same return value, the same driver state and, for the source, the octets moved at the front of the caller's block with the "
-    "rest untouched: every octet offered / fetched once and in order, retried after EINTR / EAGAIN (Ufw.Tie.EndpFns.*); the atmost variants and the octet accessors are "
-    "translated (evidence) and compared by running",
+    "rest untouched: every octet offered / fetched once and in order, retried after EINTR / EAGAIN (Ufw.Tie.EndpFns.*); the atmost variants are translated (evidence); "
+    "the getbuffer shortcuts and the auxiliary-buffer plumbing are compared by running only",
     "lean/Ufw/Model/Endpoints.lean is a hand transcription of src/endpoints/core.c for endpoints without the getbuffer extension (no endpoint of the library provides it); "
     "tied to the code by the correspondence run with scripted drivers owned by the harness",
     "octet-style drivers return 1 for a moved octet (the convention of every driver in the library)",
